@@ -112,8 +112,8 @@ bool same_mod_meta_blanks(const List &got, const List &want) {
 // counters of the (unjudged) GetAllEntries behaviour: accumulated locally and flushed once per execution (the core's
 // counters live in memory shared by all workers)
 uint64_t g_gae[6];
-const char *const kGaeName[6] = {"getallentries_stops_after_false",        "getallentries_continues_after_false",      "getallentries_returns_true_after_false",
-                                 "getallentries_returns_false_after_false", "getallentries_returns_true_when_complete", "getallentries_returns_false_when_complete"};
+const char *const kGaeName[6] = {"getallentries_stops_after_false", "getallentries_goes_on_after_false", "getallentries_true_after_false",  // (names: at most 39 characters)
+                                 "getallentries_false_after_false", "getallentries_true_when_complete",  "getallentries_false_when_complete"};
 void flush_counters(vf::Ctx &c) {
   for (int i = 0; i < 6; ++i) { if (g_gae[i]) c.counted(kGaeName[i], g_gae[i]); g_gae[i] = 0; }
 }
